@@ -344,7 +344,7 @@ def run(pid, tier, seed, args, sw):
             "distribution": stats,
             "divergences": len(divergences), "failing_input_search": searched,
             "known_findings_seen": {k: len(v) for k, v in known_hits.items()},
-            "exhaustive": False,
+            "exhaustive": bool(getattr(prop, "exhaustive_space", False)) and tier == "quick",
         },
         "assumptions": prop.assumptions,
         "wall_s": sw.s(), "violations": len(violations) + (1 if rc and not violations else 0),
